@@ -244,7 +244,13 @@ impl Line {
             } else {
                 Some(Marker::OpenCircle)
             };
-            let new_line = if is_close_end_point {
+            // when both end points are close (a stub shorter than the
+            // threshold) the marker goes to the closer one, otherwise the
+            // rest of the stub would be dropped and leave a gap in the line
+            let new_line = if is_close_end_point
+                && !(is_close_start_point
+                    && distance_start_center < distance_end_center)
+            {
                 Line::new_noswap(self.start, circle.center, self.is_broken)
             } else if is_close_start_point {
                 // if close to the start, swap the end points of the line
